@@ -1,0 +1,55 @@
+#pragma once
+#ifndef IWVERIF_EXEC_H
+#define IWVERIF_EXEC_H
+// Verification event hook of the task executors (iwstw.c, iwtp.c). Compiled only with -DIOWOW_VERIF.
+// Nothing happens while `iwverif_ev` is null. Event kinds:
+//   1 mutex locked (obj = mutex)          2 mutex about to be unlocked (obj = mutex)
+//   3 about to wait (obj = condvar)       4 wait returned, mutex held (obj = condvar)
+//   5 about to signal (obj = condvar)     6 about to broadcast (obj = condvar)
+//   7 task linked into the queue          8 task unlinked by a worker   (obj = executor, arg = task argument)
+// The callback may yield/sleep: it is the schedule perturbation point of the checks.
+#include <pthread.h>
+#include <stdint.h>
+
+extern void (*iwverif_ev)(int kind, const void *obj, intptr_t arg);
+#define IWVERIF_EV(k_, o_, a_) do { if (iwverif_ev) iwverif_ev((k_), (o_), (intptr_t) (a_)); } while (0)
+
+static inline int iwverif_lock(pthread_mutex_t *m) {
+  int rc = pthread_mutex_lock(m);
+  IWVERIF_EV(1, m, 0);
+  return rc;
+}
+
+static inline int iwverif_unlock(pthread_mutex_t *m) {
+  IWVERIF_EV(2, m, 0);
+  return pthread_mutex_unlock(m);
+}
+
+static inline int iwverif_wait(pthread_cond_t *c, pthread_mutex_t *m) {
+  IWVERIF_EV(3, c, 0);
+  int rc = pthread_cond_wait(c, m);
+  IWVERIF_EV(4, c, 0);
+  return rc;
+}
+
+static inline int iwverif_signal(pthread_cond_t *c) {
+  IWVERIF_EV(5, c, 0);
+  return pthread_cond_signal(c);
+}
+
+static inline int iwverif_broadcast(pthread_cond_t *c) {
+  IWVERIF_EV(6, c, 0);
+  return pthread_cond_broadcast(c);
+}
+
+#undef pthread_mutex_lock
+#undef pthread_mutex_unlock
+#undef pthread_cond_wait
+#undef pthread_cond_signal
+#undef pthread_cond_broadcast
+#define pthread_mutex_lock(m_)     iwverif_lock(m_)
+#define pthread_mutex_unlock(m_)   iwverif_unlock(m_)
+#define pthread_cond_wait(c_, m_)  iwverif_wait((c_), (m_))
+#define pthread_cond_signal(c_)    iwverif_signal(c_)
+#define pthread_cond_broadcast(c_) iwverif_broadcast(c_)
+#endif
